@@ -1,5 +1,5 @@
 (* C10 — no terminal stall or configuration value can hang a client call.  Statements only. *)
-From Zvt Require Import Base Length Cp437 Encoding Codec Lookup Client ClientProps ClientLog ClientTime.
+From Zvt Require Import Base Length Cp437 Encoding Codec Lookup Client ClientProps ClientLog ClientTime ClientWire.
 Open Scope N_scope.
 
 (* the read-card timeout for EVERY configuration value: t + 2 seconds, never zero, no overflow *)
@@ -68,6 +68,25 @@ Proof. vm_compute. repeat split; try reflexivity. discriminate. Qed.
 Example C10_ex : (255 + 2) * 1000 = 257000 /\ (0 + 2) * 1000 = 2000.
 Proof. split; reflexivity. Qed.
 
+(* "for every configuration value" (since the fix of F14): a configuration whose password, currency or amount does not fit its
+   fixed-width field is refused by Feig::new with an error — no client exists, no call can be made (before: every call that had
+   to send the value panicked) ... *)
+Theorem C10_invalid_configuration_is_refused : forall cfg ops scripts, cfg_ok cfg = false -> feig_history cfg ops scripts = None.
+Proof. exact invalid_configuration_is_refused. Qed.
+
+(* ... and every configuration that is accepted can be sent: handshake, configuration requests and the reservation of any token
+   are non-empty packets which their layouts read back with exactly the configured values *)
+Theorem C10_accepted_configuration_can_be_sent : forall cfg, cfg_ok cfg = true ->
+  (registration_cmd cfg <> nil /\
+   forall r, dec_cmd FUEL (cmd_of "zvt::packets::Registration") (registration_cmd cfg ++ r) =
+             Ok (registration_value (c_password cfg) (c_currency cfg), r)) /\
+  (mk_cmd "zvt::packets::EndOfDay" [VInt (c_password cfg)] nil <> nil /\
+   mk_cmd "zvt::packets::Initialization" [VInt (c_password cfg)] nil <> nil) /\
+  (forall tok pl, token_ok tok pl ->
+     mk_cmd "zvt::packets::Reservation" nil
+       [(73, VSome (VInt (c_currency cfg))); (4, VSome (VInt (c_amount cfg))); (25, VSome (VInt 64)); (6, bmp60 tok)] <> nil).
+Proof. exact accepted_configuration_can_be_sent. Qed.
+
 Print Assumptions C10_read_card_timeout_ok.
 Print Assumptions C10_poll_ends_by_deadline.
 Print Assumptions C10_retry_budget_bounds_the_poll.
@@ -92,3 +111,5 @@ Print Assumptions C10_call_connects_at_most_20_times.
 Print Assumptions C10_poll_elapsed.
 Print Assumptions C10_single_exchange_call_elapsed.
 Print Assumptions C10_every_call_returns_in_bounded_time.
+Print Assumptions C10_invalid_configuration_is_refused.
+Print Assumptions C10_accepted_configuration_can_be_sent.
